@@ -13,6 +13,16 @@ import emdfile
 from harness import alpha, common, gen
 
 
+def reindex(root):
+    idx = {}
+    def rec(n, path):
+        idx[path] = n
+        for c in n._branch._dict.values():
+            rec(c, path + (c.name,))
+    rec(root, ())
+    return idx
+
+
 class ImplWorld:
     _n = [0]
 
@@ -30,6 +40,19 @@ class ImplWorld:
             self.index[tid] = idx
         self.unrooted = {uid: gen.build_node(rec) for uid, rec in case.get("unrooted", {}).items()}
         self.prog0, self.user0 = emdfile._PROGRAM_NAME, emdfile._USER_NAME
+        # trees that were not only BUILT by adding nodes but re-arranged afterwards (cut / graft): what a tree is, is read off
+        # the objects' branches, never off the `_root` / `_treepath` a node remembers
+        for op in case.get("prep", []):
+            node = self.index[op["tree"]][tuple(op["path"])]
+            with common.quiet():
+                if op["op"] == "cut":
+                    newroot = node.cut(root_metadata=op.get("opt", True))
+                    self.trees[op["as"]] = newroot
+                else:
+                    recv = self.index[op["onto"][0]][tuple(op["onto"][1])]
+                    recv.graft(node, merge_metadata=op.get("opt", False))
+            for tid in list(self.trees):
+                self.index[tid] = reindex(self.trees[tid])
 
     def path(self, p):
         # some histories pass every path as a pathlib.Path: the package accepts both, and must treat them alike
